@@ -2235,6 +2235,14 @@ impl<'a> Socket<'a> {
                     self.timer.set_for_retransmit(cx.now(), rto);
                 }
             }
+            Timer::Idle { .. } if self.pending_fast_retransmit && !ack_all && ack_len > 0 => {
+                // A fast retransmit that could not be handed to the device yet has left the
+                // timer idle. (5.3) applies all the same: what is still in flight (possibly
+                // only the FIN, which is never fast-retransmitted) must stay covered by the
+                // retransmission timer.
+                let rto = self.rtte.retransmission_timeout();
+                self.timer.set_for_retransmit(cx.now(), rto);
+            }
             Timer::Idle { .. } => {
                 // any packet on idle refresh the keepalive timer.
                 self.timer.set_for_idle(cx.now(), self.keep_alive);
